@@ -47,6 +47,7 @@ BUILTINS = {
     "isinstance", "print", "str", "bool", "map", "round", "dict", "reversed", "super", "all", "any", "hasattr", "open", "type",
 }
 
+FIELD_SLICE = z3.Function("FIELD_SLICE", z3.IntSort(), z3.IntSort(), z3.IntSort(), z3.IntSort())
 # uninterpreted real functions with a few axioms, instantiated on demand
 LOG = z3.Function("LOG", z3.RealSort(), z3.RealSort())
 EXP = z3.Function("EXP", z3.RealSort(), z3.RealSort())
@@ -838,6 +839,15 @@ def do_slice(ex, st, o, lo, hi, node):
         raise Unsupported("symbolic slice of tuple")
     if isinstance(o, Seq):
         o = PyList(o)
+    if isinstance(o, Opaque) and o.kind == "field" and "len" in o.attrs and "id" in o.attrs:
+        # slice of an abstract candidate field: another abstract field, named by (field, lo, hi), with Python's clamped length
+        n = to_z3(o.attrs["len"])
+        lo_z = z3.IntVal(0) if lo is None else to_z3(lo)
+        hi_z = n if hi is None else to_z3(hi)
+        clamp = lambda b: z3.If(b < 0, z3.If(b + n < 0, z3.IntVal(0), b + n), z3.If(b > n, n, b))  # noqa: E731
+        lo_c, hi_c = clamp(lo_z), clamp(hi_z)
+        used(ex, "slice of an abstract field: FIELD_SLICE(id, lo, hi) with Python's clamped length")
+        return Opaque("field", {"id": FIELD_SLICE(to_z3(o.attrs["id"]), lo_c, hi_c), "len": z3.If(hi_c > lo_c, hi_c - lo_c, z3.IntVal(0))})
     if not isinstance(o, PyList):
         raise Unsupported(f"slice of {type(o).__name__}")
     n = o.length()
